@@ -1,4 +1,4 @@
-use std::io::Read;
+use std::io::{ErrorKind, Read};
 
 pub struct Reader<'a> {
     buf: [u8; Reader::BUF_SIZE],
@@ -82,7 +82,16 @@ impl<'a> Reader<'a> {
             self.begin = 0;
         }
 
-        let bytes = self.stdin.read(&mut self.buf[self.end..]).unwrap();
+        let bytes: usize;
+        loop {
+            match self.stdin.read(&mut self.buf[self.end..]) {
+                Err(e) if e.kind() == ErrorKind::Interrupted => continue,
+                res => {
+                    bytes = res.unwrap();
+                    break;
+                }
+            }
+        }
         if bytes == 0 {
             self.eof = true;
         }
